@@ -69,19 +69,91 @@ SLICES = [
 ]
 
 
+LOOP = ("wd_wrapped", "idx1", "idx2")  # by-name slices inside the smoothing loop: implied by the whole-function tie
+HELP_SLICES = [sl for sl in SLICES if sl["func"] == "<module>" or sl.get("helper_for")]
+LOOP_SLICES = [sl for sl in SLICES if sl["name"] in LOOP]
+REST_SLICES = [sl for sl in SLICES if sl not in HELP_SLICES and sl not in LOOP_SLICES]
+HELPERS = {sl["helper_for"]: "gen_" + sl["name"] for sl in HELP_SLICES if sl.get("helper_for")}
+
+
+def generate_help():
+    return py2coq.translate(KMFILE(), HELP_SLICES, "R", ssa=True, prelude="From BL Require Import Model.KM.\n")
+
+
 def generate():
-    return py2coq.translate(KMFILE(), SLICES, "R", ssa=True, section_vars=[("Gamma", "R -> R")],
-                            prelude="From BL Require Import Model.KM.\n", section_name="GenKM")
+    return py2coq.translate(KMFILE(), REST_SLICES, "R", ssa=True, section_vars=[("Gamma", "R -> R")], helpers=HELPERS,
+                            prelude="From BL Require Import Model.KM.\nFrom Gen Require Import GenKMHelp.\n", section_name="GenKM")
+
+
+def generate_loop():
+    return py2coq.translate(KMFILE(), LOOP_SLICES, "R", ssa=True, helpers=HELPERS,
+                            prelude="From BL Require Import Model.KM.\nFrom Gen Require Import GenKMHelp.\n")
+
+
+FUNS = ["_phiM", "_phiC", "_psiM", "_nParam", "_mParam", FP, Z0]
+
+
+def check_skeleton(ctx, whole):
+    """statement skeleton (names variant); a function whose WHOLE body the whole-function translator accepted (every
+    statement accounted for, fail closed) appears as one placeholder line: it is tied by Bridge/KMFunBridge.v, not by text"""
+    import json
+    import skeleton
+    nm = skeleton.slice_names([sl for sl in SLICES if sl["func"] != "<module>"])
+    exp = os.path.join(skeleton.SKELDIR, "km.json")
+    try:
+        got = skeleton.names_skeleton(KMFILE(), FUNS, nm)
+    except Exception as e:  # noqa: BLE001
+        ctx.obligation("structure:km-skeleton", False, "skeleton extraction failed: %s" % e)
+        return False
+    for f, ph in whole.items():
+        got[f] = [got[f][0], "  <whole body translated: %s>" % ph]
+    if os.environ.get("VERIF_UPDATE_SKELETONS") == "1":
+        json.dump(got, open(exp, "w"), indent=1)
+    diffs = skeleton.compare(got, json.load(open(exp)))
+    ctx.obligation("structure:km-skeleton", not diffs,
+                   "" if not diffs else "statements of ffm_kormann_meixner.py differ from the ones the model describes (bridged right-hand sides and whole-translated bodies excluded):\n%s" % "\n".join(diffs)[:1400])
+    return not diffs
 
 
 def run(ctx):
-    import skeleton
-    nm = skeleton.slice_names([sl for sl in SLICES if sl["func"] != "<module>"])
-    skeleton.check_names(ctx, "km", KMFILE(), ["_phiM", "_phiC", "_psiM", "_nParam", "_mParam", FP, Z0], nm)
+    import py2coq_km
+    # ---- part 1: module constant + helpers (addressed by function name and signature)
+    try:
+        help_text = generate_help()
+    except py2coq.TranslateError as e:
+        ctx.obligation("gen:GenKMHelp.v", False, "slice translator failed closed: %s" % e)
+        help_text = None
+    ok = help_text is not None and core.run_bridge(ctx, {"GenKMHelp.v": help_text}, ["KMHelpBridge.v"])
+    # ---- whole-function tie of estimateZ0 / estimateFootprint (needs only part 1)
+    whole, fun_oks = {}, {}
+    if help_text is not None and ok:
+        whole, fun_oks = py2coq_km.run(ctx)
+    else:
+        ctx.obligation("gen:GenKMFun.v", False, "not generated: the helper slices are broken")
+    check_skeleton(ctx, whole)
+    if not ok:
+        ctx.obligation("gen:GenKM.v", False, "not generated: the helper slices are broken")
+        return False
+    # ---- part 2: chain / coordinates / raw z0 (by-name slices)
     try:
         text = generate()
     except py2coq.TranslateError as e:
         ctx.obligation("gen:GenKM.v", False, "slice translator failed closed: %s" % e)
-        return False
+        text = None
+    ok2 = text is not None and core.run_bridge(ctx, {"GenKM.v": text}, ["KMBridge.v"])
+    # ---- part 3: by-name slices inside the smoothing loop; subsumed by the whole-function tie when they cannot be found
+    try:
+        ltext = generate_loop()
+    except py2coq.TranslateError as e:
+        if fun_oks.get("estimateZ0"):
+            ctx.cov["km_loop_slices_subsumed"] = {"slices": list(LOOP), "lemmas": ["bridge_idx1", "bridge_idx2"],
+                                                  "reason": "not found by name (%s); implied by bridge_estimateZ0_circle / bridge_estimateZ0, discharged on the current source" % e}
+            ltext = None
+            ok3 = True
+        else:
+            ctx.obligation("gen:GenKMLoop.v", False, "slice translator failed closed: %s" % e)
+            ltext, ok3 = None, False
+    if ltext is not None:
+        ok3 = core.run_bridge(ctx, {"GenKMLoop.v": ltext}, ["KMLoopBridge.v"])
     ctx.cov["slices_translated"] = ctx.cov.get("slices_translated", 0) + len(SLICES)
-    return core.run_bridge(ctx, {"GenKM.v": text}, ["KMBridge.v"])
+    return ok2 and ok3 and bool(fun_oks) and all(fun_oks.values())
